@@ -9,7 +9,7 @@ import (
 
 func init() {
 	Register(&Scenario{Prop: "C19", Name: "progress-monotone", Run: scenC19, SoftParks: true, Weight: 1,
-		Rule: "1-3 writer replicas, one database per instance (type drawn per run); 3-14 (thorough 3-40) writes (single, or 1-3 concurrent local writers stopped at the write-path points while replication goes on) with replication under faults, far-ahead heads (one writer runs ahead while links are cut), clean restart + Load(-1); GetProgress/GetMax sampled on every open store after every kernel step must never decrease; whenever the world is at rest and a replica's log is complete: progress == max and maxLamport <= progress <= Len; non-trivial = >=3 writes, >=1 at-rest check on a replica that replicated >=1 entry (or single replica), >=20 samples"})
+		Rule: "1-3 writer replicas, one database per instance (type drawn per run); 3-14 (thorough 3-40) writes (single, or 1-3 concurrent local writers stopped at the write-path points while replication goes on) with replication under faults, local writes whose cache write fails with a disk error (the entry is in the log, the call reports the error), far-ahead heads (one writer runs ahead while links are cut), clean restart + Load(-1); GetProgress/GetMax sampled on every open store after every kernel step must never decrease; whenever the world is at rest and a replica's log is complete: progress == max and maxLamport <= progress <= Len; non-trivial = >=3 writes, >=1 at-rest check on a replica that replicated >=1 entry (or single replica), >=20 samples"})
 }
 
 func scenC19(k *K) {
@@ -77,7 +77,36 @@ func scenC19(k *K) {
 		}
 	}
 	for i := 0; i < nops; i++ {
-		switch k.C.Weighted([]int{8, 2, 1, 1, 2}) {
+		switch k.C.Weighted([]int{8, 2, 1, 1, 2, 1}) {
+		case 5:
+			// a local write whose cache write fails (disk error): the call reports the error, the
+			// entry is in the log all the same, and the status must account for it
+			node := k.C.Intn(n)
+			if st := c.Stores[node]; st != nil && k.opsInFlightOn(node) == 0 {
+				armed := true
+				nd := c.Peers[node].Node
+				k.W.mu.Lock()
+				k.W.DiskFault = func(on *Node, kind, space, key string) error {
+					if armed && on == nd && kind == "cache-put" {
+						armed = false
+						return fmt.Errorf("sim: disk error on %s", key)
+					}
+					return nil
+				}
+				k.W.mu.Unlock()
+				val := c.NextVal(node)
+				op := k.Do(node, "write-under-disk-error "+val, 20, func() (interface{}, error) {
+					ctx, cancel := OpCtx(time.Minute)
+					defer cancel()
+					return c09Write(ctx, st, val)
+				})
+				k.W.mu.Lock()
+				k.W.DiskFault = nil
+				k.W.mu.Unlock()
+				if op.Done && op.Err != nil {
+					k.W.Stat("write-failed-on-disk-error")
+				}
+			}
 		case 4:
 			// concurrent local writers stopped between the log append and their status update
 			// while replication (fetch, join, end-of-replication catch-up) goes on around them
